@@ -127,6 +127,10 @@ Seeds ==
                        <<83, 84, 65, 67, 115, 45, 75>>[(((c - 1) \div Pow(7, 3 - r)) % 7) + 1]])]), prof>>}     \* S T A C s - K: strong / weak groups
             \cup {<<NewArgs("align", NUCLEOTIDS, 0, <<Row(nA, <<65, 45, 67>>), Row(nB, <<71, 45, 67>>), Row(nC, <<71, 65, 45>>)>>), prof>>,
                    <<NewArgs("align", NUCLEOTIDS, 0, <<Row(nA, <<>>)>>), prof>>}
+            \* every column of height 3 over characters that are not letters (stop codon, '?', a digit) next to letters and the
+            \* excluded ones, in both column orders: whatever a site computation carries over from its neighbours shows here
+            \cup {<<NewArgs("align", AMINOACIDS, 0, [r \in 1..3 |-> Row(<<114, ZERO + r>>, [c \in 1..Pow(6, 3) |->
+                       LET cc == IF rev THEN Pow(6, 3) - c ELSE c - 1 IN <<42, 63, 65, 88, 45, 49>>[((cc \div Pow(6, 3 - r)) % 6) + 1]])]), prof>> : rev \in Bools}
     [] Profile = "C15" ->
          LET R4 == <<65, 67, 45, 78>>
              cols(h, al) == NewArgs("align", al, 0, [r \in 1..h |->
